@@ -89,7 +89,17 @@ impl<I: RainDbIterator<Key = Vec<u8>, Error = raindb::RainDBError>> CursorChecke
             let op: String;
             let mut returned: Option<Option<(Vec<u8>, Vec<u8>)>> = None;
             let mut dir_now = Dir::None;
-            if !valid || roll < 12 {
+            if !valid && !self.tolerate_reported_errors && rng.chance(0.25) {
+                // "any sequence of calls": a step from a position that does not exist (a fresh
+                // iterator, one that ran off either end, a seek past the last key, an empty
+                // database) has nowhere to go - the answer is None and the iterator stays invalid
+                let forward = rng.chance(0.5);
+                let r = if forward { self.iter.next().map(|(k, v)| (k.clone(), v.clone())) } else { self.iter.prev().map(|(k, v)| (k.clone(), v.clone())) };
+                returned = Some(r);
+                self.pos = None;
+                op = if forward { "next(on an invalid iterator)".into() } else { "prev(on an invalid iterator)".into() };
+                out.add("steps_on_an_invalid_iterator", 1);
+            } else if !valid || roll < 12 {
                 match rng.below(8) {
                     0 => {
                         if let Err(e) = self.iter.seek_to_first() {
